@@ -282,3 +282,104 @@ if __name__ == "__main__":
         r = f(t, 0)
         print(json.dumps({k: v for k, v in r.items() if k != "failures"}, indent=1)[:1500])
         print(json.dumps(r["failures"][:3], indent=1, default=str)[:3000])
+
+
+# ------------------------------------------------------------------------------------------ the four clients agree
+def _canonical_request(request):
+    """what a server sees, without what legitimately varies between two sends (multipart boundary, lengths, user agent)"""
+    headers = {k.lower(): v for k, v in request.headers.items() if k.lower() not in ("content-length", "user-agent", "host", "accept-encoding", "connection")}
+    ctype = headers.get("content-type", "")
+    if ctype.startswith("multipart/form-data"):
+        headers["content-type"] = "multipart/form-data"
+        parts = _decode_multipart(request)
+        body = {k: (v if not isinstance(v, (bytes, bytearray)) else bytes(v)) for k, v in parts.items()} if isinstance(parts, dict) else parts
+    else:
+        body = json.loads(request.content) if request.content else None
+    return dict(method=request.method, url=str(request.url), headers=headers, body=repr(body))
+
+
+def bounded_agreement(tier, seed):
+    """`The four bundled base clients (sync/async x plain/OpenTelemetry, tracer present or not) emit identical requests`:
+    every configuration below is sent by all six client variants; what arrives must be the same (headers given to the
+    constructor, to the call, both, next to a caller-supplied http client; uploads whose stream was already read, the same
+    Upload in two successive calls; values only pydantic's encoder can serialise)."""
+    import asyncio
+    import httpx
+    cases, fails = 0, []
+
+    def variants():
+        for m, k in CLIENTS:
+            cls = getattr(importlib.import_module(DEP + m), k)
+            for tracer in ((None, "t") if k.endswith("OpenTelemetry") else (None,)):
+                yield f"{k}{'+tracer' if tracer else ''}", cls, tracer
+
+    def scenarios():
+        yield "constructor-headers-next-to-a-supplied-http-client", dict(headers={"X-Ctor": "c", "Authorization": "Bearer t"}), [dict(variables={"a": 1})]
+        yield "constructor-and-call-headers", dict(headers={"X-Ctor": "c", "X-Both": "ctor"}), [dict(variables={"a": 1}, headers={"X-Both": "call", "X-Call": "1"})]
+        yield "call-headers-and-extra-httpx-arguments", {}, [dict(variables=None, headers={"X-Call": "1"}, params={"p": "1"})]
+        yield "content-type-given-by-the-caller", {}, [dict(variables={"a": 1}, headers={"Content-Type": "application/graphql+json"})]
+        yield "content-type-given-by-the-caller-in-lower-case", {}, [dict(variables={"a": 1}, headers={"content-type": "application/graphql+json"})]
+        yield "upload-whose-stream-was-read-before", {}, [dict(variables={"f": "UPLOAD-READ"})]
+        yield "the-same-upload-in-two-successive-calls", {}, [dict(variables={"f": "UPLOAD-0"}), dict(variables={"f": "UPLOAD-0", "g": "UPLOAD-1"})]
+        yield "values-for-pydantic's-encoder", {}, [dict(variables={"when": datetime.datetime(2020, 1, 2, 3, 4, 5), "span": datetime.timedelta(minutes=90),
+                                                                    "amount": decimal.Decimal("1.50"), "ids": [uuid.UUID(int=7)], "raw": b"bytes"})]
+
+    for sname, ctor_kw, calls in scenarios():
+        cases += 1
+        seen_by = {}
+        for vname, cls, tracer in variants():
+            U = _uploads()
+            U[2].content.read()          # UPLOAD-READ: its stream is at the end
+
+            def materialise(v):
+                if isinstance(v, dict):
+                    return {k: materialise(x) for k, x in v.items()}
+                return {"UPLOAD-0": U[0], "UPLOAD-1": U[1], "UPLOAD-READ": U[2]}.get(v, v) if isinstance(v, str) else v
+            seen = []
+
+            def handler(request):
+                request.read()
+                seen.append(_canonical_request(request))
+                return httpx.Response(200, json={"data": {}})
+            kw = dict(url="http://localhost/graphql", **ctor_kw)
+            if tracer:
+                kw["tracer"] = tracer
+            try:
+                if "Async" in vname:
+                    client = cls(http_client=httpx.AsyncClient(transport=httpx.MockTransport(handler)), **kw)
+
+                    async def run():
+                        for c in calls:
+                            c = dict(c)
+                            await client.execute(QUERY_TEXT, operation_name="Q", variables=materialise(c.pop("variables")), **c)
+                    asyncio.run(run())
+                else:
+                    client = cls(http_client=httpx.Client(transport=httpx.MockTransport(handler)), **kw)
+                    for c in calls:
+                        c = dict(c)
+                        client.execute(QUERY_TEXT, operation_name="Q", variables=materialise(c.pop("variables")), **c)
+                seen_by[vname] = seen
+            except Exception as e:      # noqa
+                seen_by[vname] = f"raises {type(e).__name__}: {str(e)[:160]}"
+        first_name = next(iter(seen_by))
+        # `caller-supplied headers merged and winning`: what the caller passed to the call is what arrives, under that name once
+        if isinstance(seen_by[first_name], list) and len(seen_by[first_name]) == len(calls):
+            for c, req in zip(calls, seen_by[first_name]):
+                lost = {h: (v, req["headers"].get(h.lower())) for h, v in (c.get("headers") or {}).items() if req["headers"].get(h.lower()) != v}
+                if lost:
+                    fails.append(dict(inputs=dict(scenario=f"{sname}: caller-headers-win"), failed=["caller-supplied-headers-merged-and-winning"],
+                                      outcome={h: f"passed {v!r}, arrived {a!r}" for h, (v, a) in lost.items()}))
+        differing = sorted(v for v in seen_by if seen_by[v] != seen_by[first_name])
+        if differing:
+            fails.append(dict(inputs=dict(scenario=f"{sname}: {first_name} vs {','.join(differing)}"), failed=["the-four-clients-emit-identical-requests"],
+                              outcome={first_name: str(seen_by[first_name])[:700], differing[0]: str(seen_by[differing[0]])[:700]}))
+    return dict(function=f"{DEP}base_client:BaseClient.execute", name="bounded.clients-agree",
+                kind="bounded stand-in (end-to-end through httpx.MockTransport, native)",
+                domain="8 configurations (constructor / call headers, caller content type, extra httpx arguments, read and re-sent uploads, non-JSON leaves) "
+                       "x 6 client variants, pairwise identical requests", cases=cases, failed=len(fails), failures=fails)
+
+
+def witness_header_case():
+    r = bounded_agreement("quick", 0)
+    cases = [f["inputs"]["scenario"] for f in r["failures"] if f["inputs"]["scenario"].endswith("caller-headers-win")]
+    return dict(inputs={"scenario": "caller-headers-win"}, failed=cases, cases=cases, outcome={}, error=None)
